@@ -30,7 +30,10 @@ def gen_cases(tier, seed):
     for cap in (1, 2, 3, 4, 6):
         for wa in (True, False):
             for kind in ('normal', 'vertical', 'slow'):
-                cases.append(dict(capacity=cap, wa=wa, kind=kind, init_vd=0.25, max_dev=dev,
+                # quick: d <= 2 everywhere, d <= 3 where every call crosses or meets the capacity (cap 2);
+                # thorough: d <= 4 everywhere, d <= 5 for capacity 2
+                d_here = dev + 1 if cap == 2 else dev
+                cases.append(dict(capacity=cap, wa=wa, kind=kind, init_vd=0.25, max_dev=d_here,
                                   set_ops=['Sa', 'Sb']))
     if tier == 'thorough':
         # capacity larger than the table (no growth at all) as the control configuration
@@ -73,5 +76,6 @@ def finalize(cases, results, tier):
                 distinct_nontrivial=st,
                 deviation_bound_completed=min((r['stats'].get('min_completed_deviation_bound', -1)
                                                for r in results), default=-1),
+                deviation_bound_per_configuration={'capacity %d %s %s' % (c['capacity'], '3d' if c['wa'] else '2d', c['kind']): r['stats'].get('min_completed_deviation_bound') for c, r in zip(cases, results)},
                 explanation='every transition is an execution of the real method on a live object; '
                             'states = distinct content hashes per configuration, summed')
